@@ -189,9 +189,23 @@ class Interp:
         self.static_frames = {}
 
     def _collect_data(self, stmts):
+        # DATA is a declaration: the items of the whole module count, in text order, also those inside blocks
         for s in stmts:
-            if s["k"] == "data":
+            k = s["k"]
+            if k == "data":
                 self.data += list(s["values"])
+            elif k == "if":
+                for _, body in s["arms"]:
+                    self._collect_data(body)
+                if s.get("else") is not None:
+                    self._collect_data(s["else"])
+            elif k == "select":
+                for _, body in s["cases"]:
+                    self._collect_data(body)
+                if s.get("else") is not None:
+                    self._collect_data(s["else"])
+            elif k in ("for", "while", "do"):
+                self._collect_data(s["body"])
 
     # ---- variables -------------------------------------------------------
     def frame_of(self, frame, name):
